@@ -361,6 +361,14 @@ func (m *mon) attribute(idx int, f File, whole outcome, skipSingles bool) (bad [
 		}
 		return k
 	}
+	plainKey := key
+	key = func(o outcome, tag string) string {
+		// Divergences with a recognisable textual signature are named after it, whatever item they came from.
+		if (o.Class == "value-changed" || o.Class == "rejected-after-fmt") && strings.Contains(o.After, " is (not ") && !strings.Contains(o.Before, " is (not ") {
+			return o.Class + "/is-not-reprinted-as-is-(not"
+		}
+		return plainKey(o, tag)
+	}
 	report := func(k string, w witness) {
 		if _, loaded := m.keys.LoadOrStore(k, true); !loaded && os.Getenv("C38_DEBUG_KEY") != "" && strings.Contains(k, os.Getenv("C38_DEBUG_KEY")) {
 			// development aid: show the first witness of matching keys in full
@@ -639,10 +647,68 @@ func TestC38(t *testing.T) {
 	r.ForEach("files", r.Pick(1500, 60000), 8, func(i int, rng *rand.Rand) {
 		m.checkFile(i, GenFile(rng))
 	})
+	if !r.Replaying() {
+		m.e2e(r.Pick(40, 400))
+	}
 	var keys []string
 	m.keys.Range(func(k, _ any) bool { keys = append(keys, k.(string)); return true })
 	sort.Strings(keys)
 	r.Extra("violation_keys_seen", keys)
 	r.Extra("rejected_examples", m.notes)
-	r.RequireObserved("outcome/ok", "files_rewritten_by_fmt", "files_with_merged_subincludes")
+	r.RequireObserved("outcome/ok", "files_rewritten_by_fmt", "files_with_merged_subincludes", "e2e_files_identical_to_in_process_fmt")
+}
+
+// e2e ties the in-process route to the command line: the same generated files are formatted by
+// `plz fmt -w` (the binary built from the same tree) and by format.Format in-process; the texts must
+// be identical. A difference means the monitor is not observing what users run: inconclusive.
+func (m *mon) e2e(n int) {
+	r := m.r
+	repo := filepath.Join(r.Scratch(), "e2e", "repo")
+	if err := os.MkdirAll(repo, 0o755); err != nil {
+		r.Inconclusive("e2e: " + err.Error())
+		return
+	}
+	os.WriteFile(filepath.Join(repo, ".plzconfig"), []byte(lib.DefaultPlzConfig), 0o644)
+	var files []string
+	want := map[string]string{}
+	for i := 0; i < n; i++ {
+		f := GenFile(r.Rand("e2e", i))
+		f.Name = "BUILD"
+		src := f.Source(nil)
+		o := m.run("BUILD", src)
+		if o.Class == "vacuous-fmt" || o.Class == "fmt-panic" || o.After == "" {
+			continue // the CLI would stop at this file's parse error
+		}
+		rel := filepath.Join(fmt.Sprintf("p%d", i), "BUILD")
+		os.MkdirAll(filepath.Join(repo, filepath.Dir(rel)), 0o755)
+		if err := os.WriteFile(filepath.Join(repo, rel), []byte(src), 0o644); err != nil {
+			r.Inconclusive("e2e: " + err.Error())
+			return
+		}
+		files = append(files, rel)
+		want[rel] = o.After
+	}
+	if len(files) == 0 {
+		r.Inconclusive("e2e: no file for the CLI sample")
+		return
+	}
+	res := lib.PlzCmd{Bin: lib.PlzBin(false), Dir: repo, Args: append([]string{"fmt", "-w"}, files...)}.Run()
+	if res.TimedOut {
+		r.Inconclusive("e2e: plz fmt -w did not finish")
+		return
+	}
+	r.Obs("e2e_plz_fmt_invocations", 1)
+	for _, rel := range files {
+		b, err := os.ReadFile(filepath.Join(repo, rel))
+		if err != nil {
+			r.Inconclusive("e2e: " + err.Error())
+			return
+		}
+		if string(b) == want[rel] {
+			r.Obs("e2e_files_identical_to_in_process_fmt", 1)
+		} else {
+			r.Obs("e2e_files_differing_from_in_process_fmt", 1)
+			r.Inconclusive(fmt.Sprintf("e2e: `plz fmt -w %s` (exit %d) wrote text that differs from in-process format.Format: %s | stderr: %s", rel, res.Exit, firstDiffLine(want[rel], string(b)), lib.Tail(res.Stderr, 300)))
+		}
+	}
 }
